@@ -8,8 +8,9 @@
    Majority judgment (every seat count, both tie-breakers): whoever is elected has a (lower) median at
    least that of whoever is not; single seat: the plus tie-break elects the member of the tie with strictly
    the most scores at or above the shared median, the default tie-break elects the strict leader after
-   rounds of median removal - but over ALL initially tied candidates, so that a candidate who fell strictly
-   behind can still win (C12_mj_tiebreak_documented_refuted; replayed on votelib).
+   rounds of median removal among the candidates still level, and the winner never falls behind on the way
+   (C12_mj_tiebreak_documented; the pinned tree kept the candidates that fell behind in the loop - repaired,
+   fixes/C12-mj-default-reentry.diff).
    Justified representation of the PAV committee for weighted ballots: C12_pav_jr (Aziz et al. 2017 swap
    argument; the sharper bound weight * (n+1) <= total is C12_pav_jr_bound).
    STAR (Model/Star.v, default configuration), one seat, two untied finalists: the winner is one of the two top
@@ -89,9 +90,12 @@ Proof. exact mj_single_highest_median. Qed.
 (* equal medians, single seat.
    plus ("the highest amount of scores higher or equal to the median"): every other candidate with the same
    median has strictly fewer scores at or above it.
-   default ("removes median scores from tied candidates until the median of the remaining scores differs"):
-   either the winner leads outright, or it is the strict leader of the medians after some rounds [mj_rounds]
-   of removing >= 1 copies of every tied candidate's current median, the lead being shared before each round *)
+   default ("removes median scores from tied candidates until the median of the remaining scores differs among
+   them, and then selects the one with the highest new median score"): either the winner leads outright, or it
+   is the strict leader of the medians in the last state of the removal rounds [mj_rounds].  One round
+   [mj_round]: the candidates T sharing the highest median stay, everybody else leaves the contest, and
+   mj_ch >= 1 copies of the current median grade are removed from each of T (C12_mj_round_level,
+   C12_mj_round_removes). *)
 Theorem C12_mj_tiebreak : forall cf votes sc med c,
   corrected_scores cf votes = inl sc -> aggregate FMedianLow sc = inl med ->
   (majority_judgment true cf votes 1 = inl [Cand c] ->
@@ -102,7 +106,7 @@ Theorem C12_mj_tiebreak : forall cf votes sc med c,
      (exists v, In (c, v) med /\ forall c' v', In (c', v') med -> c' <> c -> (v' < v)%Q) \/
      (exists tied sub' medians' v,
         get_n_best Qle_bool med 1 = [TieR tied] /\
-        mj_rounds (filter (fun cd : C * cscores => cmem (fst cd) tied) sc) sub' /\
+        mj_rounds (mj_level sc tied) sub' /\
         aggregate FMedianLow sub' = inl medians' /\
         In (c, v) medians' /\ forall c' v', In (c', v') medians' -> c' <> c -> (v' < v)%Q)).
 Proof.
@@ -111,34 +115,38 @@ Proof.
   - intros Hr. exact (mj_default_tiebreak cf votes sc med c Hsc Hmed Hr).
 Qed.
 
-(* the documented default rule stops at the first round in which the medians differ and elects the highest new
-   median; the loop goes on over all initially tied candidates instead.  Full statement (false): *)
-Definition C12_mj_tiebreak_documented_full_statement : Prop :=
-  forall cf votes sc med tied c sub1 medians1,
-    corrected_scores cf votes = inl sc -> aggregate FMedianLow sc = inl med ->
-    get_n_best Qle_bool med 1 = [TieR tied] ->
-    majority_judgment false cf votes 1 = inl [Cand c] ->
-    mj_rounds (filter (fun cd : C * cscores => cmem (fst cd) tied) sc) sub1 ->
-    aggregate FMedianLow sub1 = inl medians1 ->
-    forall v c' v', In (c, v) medians1 -> In (c', v') medians1 -> (v' <= v)%Q.
+(* the documented default rule: in EVERY state the removal rounds go through (the first and the last included) the
+   eventual winner is still in the contest and nobody in the contest has a higher median - the winner never falls
+   behind.  (Refuted for the pinned tree, where candidates that fell behind stayed in the loop: known finding
+   C12-mj-default-reentry, repaired by fixes/C12-mj-default-reentry.diff; the model mirrors the repaired code.) *)
+Theorem C12_mj_tiebreak_documented : forall cf votes sc med tied c sub1 medians1,
+  corrected_scores cf votes = inl sc -> aggregate FMedianLow sc = inl med ->
+  get_n_best Qle_bool med 1 = [TieR tied] ->
+  majority_judgment false cf votes 1 = inl [Cand c] ->
+  mj_rounds (mj_level sc tied) sub1 ->
+  aggregate FMedianLow sub1 = inl medians1 ->
+  exists v, In (c, v) medians1 /\ forall c' v', In (c', v') medians1 -> (v' <= v)%Q.
+Proof. exact mj_default_tiebreak_documented. Qed.
 
-Theorem C12_mj_tiebreak_documented_refuted :
-  exists cf votes sc med tied c c' sub1 medians1 v v',
-    corrected_scores cf votes = inl sc /\ aggregate FMedianLow sc = inl med /\
-    get_n_best Qle_bool med 1 = [TieR tied] /\
-    majority_judgment false cf votes 1 = inl [Cand c] /\
-    mj_rounds (filter (fun cd : C * cscores => cmem (fst cd) tied) sc) sub1 /\
-    aggregate FMedianLow sub1 = inl medians1 /\
-    In (c, v) medians1 /\ In (c', v') medians1 /\ (v < v')%Q.
-Proof. exact mj_default_documented_refuted. Qed.
+(* who is still in the contest after a round: candidates of the previous state whose median was the highest there;
+   a candidate that falls behind the shared lead is out for good *)
+Theorem C12_mj_round_level : forall sub medians T c,
+  aggregate FMedianLow sub = inl medians -> get_n_best Qle_bool medians 1 = [TieR T] ->
+  In c (map fst (mj_round sub medians T)) ->
+  In c (map fst sub) /\ exists v, In (c, v) medians /\ forall c' v', In (c', v') medians -> (v' <= v)%Q.
+Proof. exact mj_round_level. Qed.
 
-Theorem C12_mj_tiebreak_documented_false : ~ C12_mj_tiebreak_documented_full_statement.
-Proof.
-  intros H. destruct C12_mj_tiebreak_documented_refuted as (cf & votes & sc & med & tied & c & c' & sub1 & medians1 & v & v' &
-    H1 & H2 & H3 & H4 & H5 & H6 & H7 & H8 & H9).
-  pose proof (H cf votes sc med tied c sub1 medians1 H1 H2 H3 H4 H5 H6 v c' v' H7 H8) as Hle.
-  apply (Qlt_not_le _ _ H9 Hle).
-Qed.
+(* every round removes at least one copy of the median grade *)
+Theorem C12_mj_round_removes : forall sub medians, (1 <= mj_ch sub medians)%Z.
+Proof. exact mj_ch_pos. Qed.
+
+(* the witness of the repaired defect: grades A = 0,0,1,2,2  B = 0,1,1,1,1  C = 0,1,1,1,2 share the median 1; after one
+   removal A (1) is behind, B (2) and C (3) go on and C wins (the pinned tree elected A) *)
+Example C12_mj_reentry_example :
+  let cf := {| sc_fn := FMedianLow; sc_unscored := UNone; sc_min_count := 0%Z; sc_trunc := 0%Q; sc_bottom := 0%Q |} in
+  let b (x y z : Z) : sballot * Z := ([(1%positive, inject_Z x); (2%positive, inject_Z y); (3%positive, inject_Z z)], 1%Z) in
+  majority_judgment false cf [b 0 0 0; b 0 1 1; b 1 1 1; b 2 1 1; b 2 1 2]%Z 1 = inl [Cand 3%positive].
+Proof. vm_compute. reflexivity. Qed.
 
 (* ---- justified representation of the PAV committee (weighted ballots).
    No group G of voters who all approve a common candidate c and none of whom approves any member of the
@@ -233,8 +241,9 @@ Print Assumptions C12_score_rank.
 Print Assumptions C12_mj_highest_median.
 Print Assumptions C12_mj_single_highest_median.
 Print Assumptions C12_mj_tiebreak.
-Print Assumptions C12_mj_tiebreak_documented_refuted.
-Print Assumptions C12_mj_tiebreak_documented_false.
+Print Assumptions C12_mj_tiebreak_documented.
+Print Assumptions C12_mj_round_level.
+Print Assumptions C12_mj_round_removes.
 Print Assumptions C12_pav_jr_bound.
 Print Assumptions C12_pav_jr.
 Print Assumptions C12_pav_committee.
